@@ -213,6 +213,8 @@ class BackendProvider(ABC):
         Floor a value and convert to integer.
         """
         result = np.floor(np.asarray(a, dtype=float))
+        if not np.all(np.abs(result) < 2.0**63):
+            return result  # beyond the integer range (or not finite): the floored real number is returned
         return result.astype(int) if hasattr(result, 'astype') else int(result)
 
     def power(self, a, b):
